@@ -495,10 +495,10 @@ func c13Case(run *verifkit.Run, caseNo int, rng *verifkit.Rand) {
 		case <-done:
 			return true
 		case dump := <-deadlock:
-			sites, filtered := c13BlockedSites(dump)
+			site, filtered := c13BlockedSites(dump)
 			c13Dead = true
 			atomic.StoreInt32(&e.abort, 1)
-			e.run.Violation("C13:C4:no-progress:"+strings.Join(sites, "+"),
+			e.run.Violation("C13:C4:no-progress:"+site,
 				fmt.Sprintf("no operation finished, and no Keep write arrived or completed, for 30 s while no Keep write was parked (%d still in flight); goroutines inside the collection filesystem:\n%s", e.ctl.inflightCount(), filtered), nil)
 			return false
 		}
